@@ -189,6 +189,11 @@ def get_neighbors_nonperiodic(ctx, case):
     c.call_models["Voxels::findLowerBound"] = bound_model("findLowerBound")
     c.call_models["Voxels::findUpperBound"] = bound_model("findUpperBound")
 
+    def cut(name, fact):
+        """assert-then-assume: an intermediate fact proved where it arises and used by the later obligations of the path"""
+        ex.require(name, fact)
+        ex.assume(fact)
+
     entry = {}
     g = {}
 
@@ -208,9 +213,16 @@ def get_neighbors_nonperiodic(ctx, case):
         vi.fields["y"], vi.fields["z"] = SInt(z3.Int(core.fresh_name("vi.y"))), SInt(z3.Int(core.fresh_name("vi.z")))
         return []
 
+    def near(k):
+        dk = P(J.t, k) - P(I.t, k)
+        return z3.And(dk < d.t, -dk < d.t)
+
     def z_inv(interp, env, gh):
         z = term(interp.getvar(env, "z"))
         sz = term(interp.getvar(env, "startz"))
+        if gh.get("entry"):
+            ez = term(interp.getvar(env, "endz"))
+            cut("range:an-atom-closer-than-the-cutoff-along-z-lies-in-a-visited-voxel-layer", z3.Implies(near(2), z3.And(sz <= ZJ.t, ZJ.t <= ez)))
         return mono("z", gh) + [("voxel-layers-below-z-are-done", z3.Implies(z3.And(within, sz <= ZJ.t, ZJ.t < z), nb.found))]
 
     def y_havoc(interp, env, gh):
@@ -221,6 +233,9 @@ def get_neighbors_nonperiodic(ctx, case):
 
     def y_inv(interp, env, gh):
         z, y, sy = term(interp.getvar(env, "z")), term(interp.getvar(env, "y")), term(interp.getvar(env, "starty"))
+        if gh.get("entry"):
+            ey = term(interp.getvar(env, "endy"))
+            cut("range:an-atom-closer-than-the-cutoff-along-y-lies-in-a-visited-voxel-row", z3.Implies(near(1), z3.And(sy <= YJ.t, YJ.t <= ey)))
         return mono("y", gh) + [("voxel-rows-below-y-are-done", z3.Implies(z3.And(within, z == ZJ.t, sy <= YJ.t, YJ.t < y), nb.found))]
 
     def i_havoc(interp, env, gh):
@@ -236,7 +251,20 @@ def get_neighbors_nonperiodic(ctx, case):
     c.loop_specs[("Voxels::getNeighbors", 0)] = CLoopSpec(z_havoc, z_inv)
     c.loop_specs[("Voxels::getNeighbors", 1)] = CLoopSpec(y_havoc, y_inv)
     c.loop_specs[("Voxels::getNeighbors", 3)] = CLoopSpec(i_havoc, i_inv)
+    def here(interp, env):
+        return z3.And(term(interp.getvar(env, "z")) == ZJ.t, term(interp.getvar(env, "y")) == YJ.t)
+
     def decl_hook(interp, env, name, val):
+        if name in ("dy", "dz") and interp.fname == "Voxels::getNeighbors":
+            k = 1 if name == "dy" else 2
+            dk = P(J.t, k) - P(I.t, k)
+            cut(f"window:{name}-is-a-lower-bound-of-the-separation-of-any-atom-of-this-voxel-from-the-centre-atom", z3.Implies(here(interp, env), z3.And(rterm(val) >= 0, rterm(val) * rterm(val) <= dk * dk)))
+        if name == "dist2" and interp.fname == "Voxels::getNeighbors":
+            dx = P(J.t, 0) - P(I.t, 0)
+            cut("window:dist2-exceeds-the-squared-x-separation-of-an-atom-within-the-cutoff", z3.Implies(z3.And(within, here(interp, env)), rterm(val) > dx * dx))
+        if name == "dist" and interp.fname == "Voxels::getNeighbors":
+            dx = P(J.t, 0) - P(I.t, 0)
+            cut("window:|x_j-x_i|<dist", z3.Implies(z3.And(within, here(interp, env)), z3.And(dx < rterm(val), -dx < rterm(val))))
         if name == "dSquared":
             # assert-then-assume: the value compared with the cutoff is the squared distance between atom `index` and the centre atom
             k = term(interp.getvar(env, "index"))
@@ -246,6 +274,7 @@ def get_neighbors_nonperiodic(ctx, case):
         return val
     c.decl_hook = decl_hook
     ctx.assume(sorted_all())
+    cut("lemma:within-the-cutoff=>closer-than-the-cutoff-along-every-axis", z3.Implies(within, z3.And(near(0), near(1), near(2))))
     c.call_record_method(v, "getNeighbors", [nb, I, d, Ptr(xyz, 0), avi])
     ctx.cover("returned")
     ctx.ensure("completeness:atom-j-within-the-cutoff-is-reported", z3.Implies(within, nb.found))
@@ -312,8 +341,9 @@ def voxel_index_nocell(ctx, case):
     vi = c.call_record_method(v, "getVoxelIndex", [Ptr(loc, 0)])
     Y, Z = term(vi.fields["y"]), term(vi.fields["z"])
     ctx.ensure("getVoxelIndex:index-inside-the-grid", z3.And(0 <= Y, Y < term(ny), 0 <= Z, Z < term(nz)))
-    ctx.ensure("getVoxelIndex:the-atom-lies-in-its-closed-voxel(y)", z3.And(z3.ToReal(Y) * rterm(vy) <= y - miny.t, y - miny.t <= (z3.ToReal(Y) + 1) * rterm(vy)))
-    ctx.ensure("getVoxelIndex:the-atom-lies-in-its-closed-voxel(z)", z3.And(z3.ToReal(Z) * rterm(vz) <= z - minz.t, z - minz.t <= (z3.ToReal(Z) + 1) * rterm(vz)))
+    for ax, K_, v_, c_, m_ in (("y", Y, vy, y, miny), ("z", Z, vz, z, minz)):
+        ctx.ensure(f"getVoxelIndex:the-atom-lies-in-its-closed-voxel({ax}):lower-face", z3.ToReal(K_) * rterm(v_) <= c_ - m_.t)
+        ctx.ensure(f"getVoxelIndex:the-atom-lies-in-its-closed-voxel({ax}):upper-face", c_ - m_.t <= (z3.ToReal(K_) + 1) * rterm(v_))
     if case == "insert":
         c.call_record_method(v, "insert", [atom, Ptr(loc, 0)])
         ctx.ensure("insert:one-entry-appended", len(bins.pushed) == 1)
